@@ -34,3 +34,9 @@ def run(ctx):
         _c05.job_retention(ctx, "R04.6")
     except Skip:
         pass
+    # "dead" must mean dead: the worker drops a job from its map on is_dead(), so a handler that raised the job-gone flag of a living job would
+    # let get_or_create_job start a second job - and a second process - for the same Id
+    try:
+        jobrules.flag_identity(ctx, jobtask.Bodies(ctx, "R04.6"), "R04.6")
+    except Skip:
+        pass
